@@ -2,6 +2,10 @@
 // meta client, coordinator points writer, tsdb.Store, one shard per hour), read back through the
 // storage read service.
 //
+// The handler reaches the engine directly (a quarter of the cases) or, as cmd/influxd/launcher wires it,
+// through storage.LoggingPointsWriter with the organization's _monitoring bucket in place: an engine
+// error is logged there as a write_errors point and the client must still get the engine's error.
+//
 // One rapid case = one fresh stack and a sequence of 5..9 write requests. Requests are built like in
 // mode (a) (damaged lines, sizes around the limit, gzip) over plain names, with every point at its own
 // timestamp in one of three hourly shards of 2030 — or in 1970, outside the bucket's 30-year
@@ -11,7 +15,8 @@
 // Oracle: the content of the bucket (every series / field / timestamp / typed value) must equal the
 // model after every request: unchanged after a 400 / 413 / unknown target, all points after a 204
 // (read immediately after the answer), all but the dropped points after an error answer — and that
-// error answer must state the number of points of the batch that cannot be read back.
+// error answer must state the number of points of the batch that cannot be read back. With the logging
+// wiring, at the end of the case the _monitoring bucket must hold one write_errors point per failed request.
 package c32_writeapi
 
 import (
@@ -25,7 +30,10 @@ import (
 	"time"
 
 	"github.com/influxdata/influxdb/v2"
+	"github.com/influxdata/influxdb/v2/kit/platform"
 	"github.com/influxdata/influxdb/v2/models"
+	"github.com/influxdata/influxdb/v2/storage/reads/datatypes"
+	"google.golang.org/protobuf/types/known/anypb"
 	"pgregory.net/rapid"
 
 	"verifharness/internal/ev"
@@ -50,9 +58,18 @@ type engState struct {
 	ctr   int64                     // unique counter (timestamps, values)
 	ids   fixtureIDs
 	hnd   map[int]http.Handler // by limit
+	lf    *logFinder           // wiring between handler and engine (nil = raw)
+	nErrs int                  // requests for which the engine reported an error
 }
 
-func newEngState() (*engState, error) {
+// engLogBucket is the organization's _monitoring bucket in mode (b).
+const engLogBucket = platform.ID(0x3000)
+
+func newEngState() (*engState, error) { return newEngStateWired(wireRaw) }
+
+// newEngStateWired builds the stack; with wireLogging the handler reaches the engine through the
+// server's LoggingPointsWriter and the organization gets its _monitoring bucket (7 d retention).
+func newEngStateWired(wiring int) (*engState, error) {
 	dir, err := scratch.Dir("c32-")
 	if err != nil {
 		return nil, err
@@ -70,6 +87,16 @@ func newEngState() (*engState, error) {
 	}
 	e := &engState{st: s, data: map[string]map[int64]fval{}, ids: fixtureIDs{org: s.Org, bucket: s.Bucket}}
 	e.cw = &countingWriter{inner: s.Eng}
+	if wiring != wireRaw {
+		if err := s.Eng.CreateBucket(context.Background(), &influxdb.Bucket{ID: engLogBucket, OrgID: s.Org, Type: influxdb.BucketTypeSystem,
+			Name: influxdb.MonitoringSystemBucketName, RetentionPeriod: influxdb.MonitoringSystemBucketRetention}); err != nil {
+			s.Close()
+			os.RemoveAll(dir)
+			return nil, err
+		}
+		e.lf = &logFinder{org: s.Org, logID: engLogBucket, wiring: wiring}
+		e.cw.inner = wire(s.Eng, e.lf)
+	}
 	for i := range e.types {
 		e.types[i] = map[string]byte{}
 	}
@@ -337,7 +364,8 @@ func TestPropRealEngine(t *testing.T) {
 	rec.Assume("mode (b): full storage stack (storage.Engine + meta client on in-memory KV + coordinator points writer + tsdb.Store, background loops off); bucket with 1h shard groups and a 30-year retention period; points dated 2030 (stored) or 1970 (outside retention); reads through the v1 storage read service")
 	rec.Assume("mode (b): after an ERROR answer the bucket is polled for up to 5 s until it equals the model (the coordinator answers on the first shard error while other shards may still be writing); after a 204 it is read once, immediately")
 	rec.Check(t, 500, 9000, func(t *rapid.T) {
-		e, err := newEngState()
+		wiring := genWiring(t, false)
+		e, err := newEngStateWired(wiring)
 		if err != nil {
 			t.Fatalf("fixture: %v", err)
 		}
@@ -345,6 +373,9 @@ func TestPropRealEngine(t *testing.T) {
 		nReq := rapid.IntRange(5, 9).Draw(t, "n_requests")
 		for r := 0; r < nReq; r++ {
 			e.oneRequest(t, r)
+		}
+		if e.lf != nil {
+			e.checkErrorLog(t)
 		}
 	})
 }
@@ -356,9 +387,14 @@ func (e *engState) oneRequest(t *rapid.T, r int) {
 
 	rec.Eval()
 	oversize, hasDamaged := c.classify("eng")
+	wiring := wireRaw
+	if e.lf != nil {
+		wiring = e.lf.wiring
+	}
+	rec.Class("eng:wiring:" + wiringNames[wiring])
 	fail := func(key, detail string) {
 		cj := c.json()
-		cj["status"], cj["answer"], cj["request_index"] = res.Status, res.Raw, r
+		cj["status"], cj["answer"], cj["request_index"], cj["wiring"] = res.Status, res.Raw, r, wiringNames[wiring]
 		rec.Fail(t, "TestPropRealEngine", key, detail, cj)
 	}
 	pts := b.points()
@@ -485,6 +521,10 @@ func (e *engState) oneRequest(t *rapid.T, r int) {
 		return
 	}
 	rec.Class("eng:outcome:partial-write")
+	e.nErrs++
+	if wiring == wireLogging {
+		rec.Class("eng:logged-write-error:partial-write")
+	}
 	if res.Status >= 200 && res.Status < 300 {
 		fail("partial-write-reported-success", fmt.Sprintf("status %d although %d of %d points were not stored", res.Status, total, len(pts)))
 	}
@@ -503,5 +543,43 @@ func (e *engState) oneRequest(t *rapid.T, r int) {
 			key = keyUndercount
 		}
 		fail(key, fmt.Sprintf("%d points of the batch cannot be read back (retention %d, conflicts per shard %v); the answer states %v: %s", lost, eff.expired, eff.conflicts, stated, res.Raw))
+	}
+}
+
+// checkErrorLog (logging wiring): the _monitoring bucket holds one write_errors point per request for
+// which the engine reported an error, and nothing else (LoggingPointsWriter: "Errored writes from here
+// will be logged"; the log point is written before the answer).
+func (e *engState) checkErrorLog(t *rapid.T) {
+	if e.lf.badFilter != "" {
+		rec.Fail(t, "TestPropRealEngine", "log-bucket-lookup", "the log bucket was looked up with filter "+e.lf.badFilter, nil)
+	}
+	src, err := anypb.New(e.st.Reads.GetSource(uint64(e.st.Org), uint64(engLogBucket)))
+	if err != nil {
+		t.Fatalf("log bucket source: %v", err)
+	}
+	rs, err := e.st.Reads.ReadFilter(context.Background(), &datatypes.ReadFilterRequest{ReadSource: src,
+		Range: &datatypes.TimestampRange{Start: 0, End: 1 << 62}})
+	if err != nil {
+		t.Fatalf("read log bucket: %v", err)
+	}
+	rows, err := fix.DrainResultSet(rs)
+	if err != nil {
+		t.Fatalf("read log bucket: %v", err)
+	}
+	n, other := 0, []string{}
+	for _, r := range rows {
+		k, f := r.Key()
+		if k == logMeasurement && f == "error" {
+			n += len(r.Points)
+		} else if len(r.Points) > 0 {
+			other = append(other, k+"#"+f)
+		}
+	}
+	if e.nErrs > 0 {
+		rec.Class("eng:error-log-checked")
+	}
+	if n != e.nErrs || len(other) > 0 {
+		rec.Fail(t, "TestPropRealEngine", "error-log-differs", fmt.Sprintf("the engine reported an error for %d requests; the _monitoring bucket holds %d %s points and other series %q",
+			e.nErrs, n, logMeasurement, other), map[string]any{"wiring": wiringNames[e.lf.wiring]})
 	}
 }
